@@ -144,6 +144,13 @@ def _():
     rep(CC, "if len(chain) == 1 && validationOpts.trustedRoots.Contains(cert) {\n\t\treturn chain, nil", "if validationOpts.trustedRoots.Contains(cert) {\n\t\treturn []*x509.Certificate{cert}, nil")
 
 
+@edit("i-m13-the-question-fills-an-empty-pool")
+def _():
+    # "a log without configured roots trusts what it sees first": asking adds the certificate, then finds it
+    rep(P, "\tfingerprint := sha256.Sum256(cert.Raw)\n\t_, ok := p.fingerprintToCertMap[fingerprint]\n\treturn ok\n}\n\n// Included indicates",
+        "\tif len(p.rawCerts) == 0 {\n\t\tp.AddCert(cert)\n\t}\n\tfingerprint := sha256.Sum256(cert.Raw)\n\t_, ok := p.fingerprintToCertMap[fingerprint]\n\treturn ok\n}\n\n// Included indicates")
+
+
 # ---------------------------------------------------------------- twin-j: defects
 JC = "\tvalidationOpts := li.validationOpts\n\tif validationOpts.currentTime.IsZero() && li.TimeSource != nil {\n\t\tvalidationOpts.currentTime = li.TimeSource.Now()\n\t}\n"
 
